@@ -269,12 +269,16 @@ fn host_kind<const HN: usize, const RN: usize, const UN: usize>(la: bool, ra: bo
     let got = check_pattern(mask, part.iter(), Some(fh), 0, &req, &mut rm);
     let (fhb, rhb, fbs) = (fh.as_bytes(), rh.as_bytes(), f.as_bytes());
     let u = &ub[..n];
-    // first occurrence of fh in the whole URL text
+    // first occurrence of fh in the whole URL text "s://" ++ host ++ tail: fh consists of hostname characters, so
+    // before the host it can only be the scheme letter itself
     let mut first = usize::MAX;
+    if fhb.len() == 1 && fhb[0] == b's' {
+        first = 0;
+    }
     let mut q = 0;
-    while q < UN {
-        if first == usize::MAX && q + fhb.len() <= n && eq_at(u, q, fhb) {
-            first = q;
+    while q < RN {
+        if first == usize::MAX && q + fhb.len() <= rhb.len() && eq_at(rhb, q, fhb) {
+            first = 4 + q;
         }
         q += 1;
     }
@@ -311,8 +315,8 @@ fn host_kind<const HN: usize, const RN: usize, const UN: usize>(la: bool, ra: bo
     core::mem::forget(part);
     core::mem::forget(url);
 }
-std_harness!(11, fn c02_host_left() { host_kind::<2, 3, 9>(true, false); });
-std_harness!(11, fn c02_host_both() { host_kind::<2, 3, 9>(true, true); });
+std_harness!(8, fn c02_host_left() { host_kind::<2, 3, 9>(true, false); });
+std_harness!(8, fn c02_host_both() { host_kind::<2, 3, 9>(true, true); });
 
 // ---------------------------------------------------------------------------------------------- C03.opts
 fn type_bit(t: u8) -> (request::RequestType, NetworkFilterMask) {
